@@ -33,7 +33,7 @@ var commonAssumptions = []string{
 	"zerolog: an event started with Logger.Fatal() ends the process with status 1 when terminated by Msg/Msgf/Send; Logger.Panic() panics; an unterminated event does nothing",
 }
 
-var commonTrusted = []string{"go/types", "golang.org/x/tools/go/ssa v0.29.0", "golang.org/x/tools/go/packages", "the rule implementations under /verif/checker/internal/rules"}
+var commonTrusted = []string{"go/types", "golang.org/x/tools/go/ssa v0.29.0", "golang.org/x/tools/go/packages", "the rule implementations under /verif/checker/internal/rules", "the rewriting of pass-through methods behind repository interfaces into the call they forward to (/verif/checker/internal/load/forward.go; the rewritten call sites are listed under forwarders_inlined)"}
 
 // Dump prints a shared model for debugging and for DESIGN-time validation.
 func Dump(c *Ctx, what string, w io.Writer) {
